@@ -19,6 +19,8 @@ EXPR_CHILDREN = [
     'a < b < c', 'a and b or c', 'x.y[z](w)', 'é', "'é' + ü",
     # undelimited sequences whose first and last elements are themselves delimited (the outer node only LOOKS delimited)
     '(a), (b)', '[a], [b]', '(a, b), (c, d)', '[a], b', '(a).b, c[(d)]',
+    # names / attribute / subscript chains with parentheses around an inner part (annotation targets forbid them at the start)
+    '(a).b', '(a)[b]', '(a.b).c', '(a)()',
 ]
 
 # children that are multi-line (source form only legal inside brackets, or using continuation)
@@ -26,6 +28,7 @@ EXPR_CHILDREN_ML = [
     '(a +\n b)', 'a + \\\n b', 'f(a,\n  b)', '[a,\n b]', '(a if b\n else c)', "'''m\nl'''", '(a, # c\n b)',
     '(a\n and b)', '(lambda:\n a)', 'a[\n b]',
     '(a + # c \\\n b)', '(a # c:\\tmp\\\n .b)',  # a comment that ends in a backslash is not a line continuation
+    '(a\n.b)', '(a\n[0])', '(a\n.b).c',
 ]
 
 PATTERN_CHILDREN = [
@@ -72,6 +75,8 @@ PARENTS_STMT = [
     'u = v if w else z', 'u = lambda: v', 'global g', 'import m',
     'async with u: pass', 'async with u, v: pass', 'with u, v: pass', 'with (u): pass', 'async with (u as v): pass',
     'try: pass\nexcept* u as e: pass', 'for u in v: pass\nelse: pass', 'async def f(a=u) -> v: pass', 'x = u,', 'return (u)',
+    # annotation targets that are chains of attributes / subscripts (what stands first decides whether the target needs parentheses)
+    'u[v].a: w', 'u[v].a.b: w = z', 'u[v].a[p]: w', 'u.a[v].b: w', 'u.a.b: w',
 ]
 
 PARENTS_PATTERN = [
